@@ -307,4 +307,21 @@ theorem tp_parse_never_panics (b : Bytes) (sentBy : Nat) (fromTicket : Bool) :
     unmarshal b sentBy fromTicket ≠ .error .panic ∧ unmarshalFromSessionTicket b ≠ .error .panic :=
   ⟨pa_guard_covers_reads, (tp_unmarshal_no_panic b sentBy fromTicket).1, (tp_unmarshal_no_panic b sentBy fromTicket).2⟩
 
+/-- the regenerated allowed-at-encryption-level table IS RFC 9000 §12.4 Table 3 (an independent,
+    hand-written reference in `Uquic.Spec.WireMon.rfcTable3`, the same one the `enc_level_rfc` monitor
+    uses) for every frame type 0x01 … 0x1e at every level — except at the three documented 0-RTT
+    entries `encLevelDeviations` (RETIRE_CONNECTION_ID and CONNECTION_CLOSE 0x1c rejected,
+    HANDSHAKE_DONE let through to the connection, which rejects it), where it has exactly the
+    documented value. The full equality is stated (`enc_level_table_is_rfc_full`) and refuted at exactly
+    those entries. -/
+theorem enc_level_table_is_rfc :
+    (∀ t ∈ List.range 0x1f, ∀ lvl ∈ [1, 2, 3, 4], t ≠ 0 → isAllowedAtEncLevel t lvl = some (encLevelExpected t lvl)) ∧
+    (∀ t ∈ List.range 0x1f, ∀ lvl ∈ [1, 2, 3, 4], t ≠ 0 →
+      (isAllowedAtEncLevel t lvl ≠ some (rfcTable3 t lvl) ↔ (t, lvl) ∈ encLevelDeviations)) :=
+  ⟨encLevelTable_is_rfc, encLevelTable_is_rfc_witness.2⟩
+
+def enc_level_table_is_rfc_full : Prop := encLevelTable_is_rfc_full
+
+theorem enc_level_table_is_rfc_witness : ¬ enc_level_table_is_rfc_full := encLevelTable_is_rfc_witness.1
+
 end Uquic.Props.C08
